@@ -332,6 +332,11 @@ impl Number {
                 if !prefixes.contains(&**p) {
                     continue;
                 }
+                // A definitions file can say `kilo- 0`, which can't be
+                // divided by.
+                if *v == Numeric::zero() || *v == Numeric::Float(0.0) {
+                    continue;
+                }
                 let abs = val.abs();
                 if abs >= v.pow(orig.1 as i32)
                     && abs < (v * &Numeric::from(1000)).pow(orig.1 as i32)
